@@ -753,3 +753,19 @@ package types
 //@   ensures [first-claim-marks-the-block-peer-claimed] !old(has(voteSet.peerMaj23s, peerID)) ==> has(voteSet.votesByBlock, key) && voteSet.votesByBlock[key].peerMaj23
 //@   ensures [repeated-claim-changes-nothing] old(has(voteSet.peerMaj23s, peerID)) ==> voteSet.votesByBlock == old(voteSet.votesByBlock) && (old(has(voteSet.votesByBlock, key)) ==> voteSet.votesByBlock[key].peerMaj23 == old(voteSet.votesByBlock[key].peerMaj23))
 //@   ensures [tallies-are-kept] old(has(voteSet.votesByBlock, key)) ==> voteSet.votesByBlock[key] == old(voteSet.votesByBlock[key]) && voteSet.votesByBlock[key].sum == old(voteSet.votesByBlock[key].sum)
+
+// splitting a block into parts (C17): part j carries bytes j*partSize .. min(len, (j+1)*partSize) of the data - the parts cover the
+// data exactly once, never more than its length
+//@ define partLen(n Int, partSize Int, j Int) Int = ite((j + 1) * partSize <= n, partSize, n - j * partSize)
+//@ func NewPartSetFromData
+//@   props C17
+//@   requires partSize > 0
+//@   nosafety
+//@   let total = (len(data) + partSize - 1) / partSize
+//@   ensures [one-part-per-slice-of-the-data] result != nil && result.total == total && result.count == total && len(result.parts) == total
+//@   ensures [parts-cover-exactly-the-data] forall(j, 0, total, result.parts[j] != nil && len(result.parts[j].Bytes) == partLen(len(data), partSize, j))
+//@   loop 0 invariant 0 <= i && i <= total && len(parts) == total && fresh(parts)
+//@   loop 0 invariant forall(j, 0, i, parts[j] != nil && fresh(parts[j]) && alive(parts[j]))
+//@   loop 0 invariant forall(j, 0, i, len(parts[j].Bytes) == partLen(len(data), partSize, j))
+//@   loop 1 invariant 0 <= i && i <= total && len(parts) == total && fresh(parts)
+//@   loop 1 invariant forall(j, 0, total, parts[j] != nil && fresh(parts[j]) && len(parts[j].Bytes) == partLen(len(data), partSize, j))
